@@ -381,6 +381,7 @@ def run_bads(cfg):
     if cfg.get("noise"):
         opts["uncertainty_handling"] = True
         opts["noise_final_samples"] = 0
+    opts.update(cfg.get("opts", {}))
     if cfg.get("box") == "odd":
         # hard bounds that are NOT multiples of the search mesh in internal units (-1.337, 1.471): the mesh-rounded
         # box [lb_search, ub_search] is strictly inside the hard box
@@ -433,6 +434,10 @@ def panel(tier_quick, seed):
         dict(D=2, budget=70, cons="none", n_search=64, iters=3, box="odd", opt=16.0, x0=4.0),
         dict(D=1, budget=50, cons="none", n_search=64, iters=4, box="odd", opt=-15.0, x0=-4.0),
         dict(D=2, budget=70, cons="none", n_search=96, iters=2, box="odd", opt=16.0, x0=12.0, widen=True),
+        # ... and the search mesh COARSENS during the run (search_mesh_expand: after successful searches): the mesh-rounded box
+        # must follow the current mesh in both directions
+        dict(D=2, budget=80, cons="none", n_search=64, iters=2, box="odd", opt=16.0, x0=4.0, opts=dict(search_mesh_expand=1)),
+        dict(D=1, budget=70, cons="none", n_search=64, iters=2, box="odd", opt=-15.0, x0=-4.0, opts=dict(search_mesh_expand=1)),
         # acquisition values replaced by NaN for a random subset of the candidates (from outside): np.argsort ranks NaN last
         dict(D=2, budget=50, cons="none", n_search=32, iters=3, nan_acq=True),
         dict(D=2, budget=50, cons="wband", n_search=48, iters=2, nan_acq=True),
